@@ -75,6 +75,7 @@ func atomsRec(v ssa.Value, out map[string]bool, seen map[ssa.Value]bool, depth i
 				if a.Comment != "" {
 					out["var:"+a.Comment] = true
 				}
+				allocFlows(a, out, seen, depth)
 			case *ssa.Global:
 				out["global:"+Path(a)] = true
 			default:
@@ -152,11 +153,45 @@ func atomsRec(v ssa.Value, out map[string]bool, seen map[ssa.Value]bool, depth i
 		if x.Comment != "" {
 			out["var:"+x.Comment] = true
 		}
+		// a local object is what was put into it: values stored, and arguments of method
+		// calls on it (n.SetBytes(b): n derives from b)
+		allocFlows(x, out, seen, depth)
 	case *ssa.TypeAssert:
 		atomsRec(x.X, out, seen, depth+1)
 	case *ssa.MakeSlice:
 		out["make"] = true
 	}
+}
+
+func allocFlows(a *ssa.Alloc, out map[string]bool, seen map[ssa.Value]bool, depth int) {
+	if depth > 30 {
+		return
+	}
+	var visit func(addr ssa.Value, d int)
+	visit = func(addr ssa.Value, d int) {
+		refs := addr.Referrers()
+		if refs == nil || d > 3 {
+			return
+		}
+		for _, r := range *refs {
+			switch u := r.(type) {
+			case *ssa.Store:
+				if u.Addr == addr {
+					atomsRec(u.Val, out, seen, depth+1)
+				}
+			case *ssa.FieldAddr:
+				visit(u, d+1)
+			case *ssa.Call:
+				args := u.Call.Args
+				if len(args) > 0 && args[0] == addr {
+					for _, o := range args[1:] {
+						atomsRec(o, out, seen, depth+1)
+					}
+				}
+			}
+		}
+	}
+	visit(a, 0)
 }
 
 // HasAll reports whether atoms contains every wanted atom. A wanted atom ending
@@ -920,7 +955,6 @@ func ReachableAvoiding(from []*ssa.BasicBlock, avoid *ssa.BasicBlock) map[*ssa.B
 	}
 	return seen
 }
-
 
 // AnyOf combines matchers: the first that matches decides.
 func AnyOf(ms ...func(*ssa.If) (bool, bool)) func(*ssa.If) (bool, bool) {
